@@ -57,7 +57,14 @@ static bool check_perm(const uint64_t A[12], const uint64_t B[12], Ctx &ctx)
       PoseidonGoldilocks::hash_full_result(st, st); if (!cmp("hash_full_result (AVX2) chained in place: second link", st, w2, 12)) return false;
       { E cap[4]; PoseidonGoldilocks::hash(cap, (const E(&)[12])st); if (!cmp("hash (AVX2) of the chained state", cap, w3, 4)) return false; }
       memcpy(st, in, sizeof st); PoseidonGoldilocks::hash_full_result_seq(st, st); PoseidonGoldilocks::hash_full_result_seq(o2, st);
-      if (!cmp("hash_full_result_seq chained: second link", o2, w2, 12)) return false; }
+      if (!cmp("hash_full_result_seq chained: second link", o2, w2, 12)) return false;
+      // the same chain started on a state this backend has not seen before in this case (first call in place)
+      uint64_t wb1[12], wb2[12]; refp::perm(wb1, B); refp::perm(wb2, wb1);
+      for (int i = 0; i < 12; i++) st[i].fe = B[i];
+      PoseidonGoldilocks::hash_full_result(st, st); if (!cmp("hash_full_result (AVX2) in place on a fresh state", st, wb1, 12)) return false;
+      PoseidonGoldilocks::hash_full_result(o2, st); if (!cmp("hash_full_result (AVX2) chained after an in-place first call: second link", o2, wb2, 12)) return false;
+      for (int i = 0; i < 12; i++) st[i].fe = B[i];
+      PoseidonGoldilocks::hash_full_result_seq(st, st); PoseidonGoldilocks::hash_full_result_seq(o2, st); if (!cmp("hash_full_result_seq chained after an in-place first call", o2, wb2, 12)) return false; }
 #ifdef __AVX512__
     E in2[24], out2[24];
     for (int j = 0; j < 3; j++) for (int i = 0; i < 4; i++) { in2[8 * j + i].fe = A[4 * j + i]; in2[8 * j + 4 + i].fe = B[4 * j + i]; }
